@@ -416,6 +416,9 @@ def dec_value(spec, DecimalCls=Decimal):
             return list(range(int(spec['range'])))
         if 'drange' in spec:
             return {str(i): i for i in range(int(spec['drange']))}
+        if 'ddrange' in spec:
+            import collections
+            return collections.defaultdict(int, {str(i): i for i in range(int(spec['ddrange']))})
         if 'rep' in spec:
             v, n = spec['rep']
             return [dec_value(v, DecimalCls) for _ in range(int(n))]
